@@ -1,6 +1,688 @@
-//! C12 — not implemented yet.
+//! C12 — Byte-balanced assignment is a deterministic partition within the LPT bound.
+//!
+//! Code under test: `query_engine::distributed::splits::assign_lpt` (+ `Assignment::
+//! imbalance/idle_nodes`). Pure function of `(SplitSet, nodes)`; `SplitSet` has public
+//! fields so instances are constructed directly.
+//!
+//! Checks
+//!  * `lpt_small_exhaustive` — every multiset of <=9 sizes over {0..7} and every ordered
+//!    sequence of <=6 sizes over {0..4}, for 1..=4 nodes; OPT by exact branch-and-bound;
+//!    contains the tight Graham instances for N=2,3,4 ({3,3,2,2,2}, {5,5,4,4,3,3,3},
+//!    {7,7,6,6,5,5,4,4,4}).
+//!  * `lpt_generated` — generated split sets (0..200 splits, ties, zeros, heavy tails,
+//!    byte sizes to 2^40, nodes 1..64). OPT is known exactly for (a) <=14 splits
+//!    (branch-and-bound) and (b) "planted" instances built from N bins that all sum to the
+//!    same T (OPT = T because T = total/N is a lower bound that is attained).
+//!
+//! Oracle (both): (1) per_node is a partition of 0..len over exactly `nodes` lists;
+//! (2) node_bytes/node_rows/node_splits/total_bytes/idle_nodes/imbalance are the sums over
+//! what each node owns; (3) two calls agree field by field, and a SplitSet holding the same
+//! splits inserted in a different order gives the same owner for every split (canonical
+//! keys are unique by construction, so the documented tie-break decides everything);
+//! (4) 3*N*max_load <= (4N-1)*OPT in u128.
 use super::Property;
+use crate::data::pick_idx;
+use crate::runner::*;
+use proptest::prelude::*;
+use query_engine::distributed::splits::{assign_lpt, Assignment, Split, SplitSet, MAX_SPLIT_BYTES};
+use serde::{Deserialize, Serialize};
+use std::path::PathBuf;
+
+// ---------------------------------------------------------------------------
+// exact optimum makespan (independent of the code under test)
+// ---------------------------------------------------------------------------
+
+/// Exact minimum makespan of `sizes` on `m` identical machines, or None when the node
+/// budget is exhausted (deterministic: the budget counts search nodes, not time).
+pub fn opt_makespan(sizes: &[u64], m: usize, budget: u64) -> Option<u64> {
+    let m = m.max(1);
+    let mut s: Vec<u64> = sizes.iter().copied().filter(|x| *x > 0).collect();
+    s.sort_unstable_by(|a, b| b.cmp(a));
+    if s.is_empty() {
+        return Some(0);
+    }
+    let sum: u128 = s.iter().map(|x| *x as u128).sum();
+    let mut lb = s[0] as u128;
+    lb = lb.max((sum + m as u128 - 1) / m as u128);
+    if s.len() > m {
+        lb = lb.max(s[m - 1] as u128 + s[m] as u128);
+    }
+    if s.len() <= m {
+        return Some(s[0]);
+    }
+    // upper bound: own greedy (largest first, least loaded)
+    let mut loads = vec![0u128; m];
+    for x in &s {
+        let j = (0..m).min_by_key(|j| loads[*j]).unwrap();
+        loads[j] += *x as u128;
+    }
+    let mut best = *loads.iter().max().unwrap();
+    if best == lb {
+        return Some(best as u64);
+    }
+    // suffix sums for a remaining-work bound
+    let mut suffix = vec![0u128; s.len() + 1];
+    for i in (0..s.len()).rev() {
+        suffix[i] = suffix[i + 1] + s[i] as u128;
+    }
+    struct St<'a> {
+        s: &'a [u64],
+        suffix: &'a [u128],
+        m: usize,
+        lb: u128,
+        best: u128,
+        budget: u64,
+        out: bool,
+    }
+    fn dfs(st: &mut St, i: usize, loads: &mut Vec<u128>, cur_max: u128) {
+        if st.out || st.best == st.lb {
+            return;
+        }
+        if st.budget == 0 {
+            st.out = true;
+            return;
+        }
+        st.budget -= 1;
+        if i == st.s.len() {
+            if cur_max < st.best {
+                st.best = cur_max;
+            }
+            return;
+        }
+        // bound: even spreading of everything still cannot beat best
+        let total: u128 = loads.iter().sum::<u128>() + st.suffix[i];
+        let avg = (total + st.m as u128 - 1) / st.m as u128;
+        if avg.max(cur_max) >= st.best {
+            return;
+        }
+        let x = st.s[i] as u128;
+        let mut tried: Vec<u128> = Vec::with_capacity(st.m);
+        for j in 0..st.m {
+            let l = loads[j];
+            if tried.contains(&l) {
+                continue; // symmetric to a machine already tried
+            }
+            tried.push(l);
+            let nl = l + x;
+            if nl >= st.best {
+                continue;
+            }
+            loads[j] = nl;
+            dfs(st, i + 1, loads, cur_max.max(nl));
+            loads[j] = l;
+            if st.out || st.best == st.lb {
+                return;
+            }
+        }
+    }
+    let mut st = St { s: &s, suffix: &suffix, m, lb, best, budget, out: false };
+    let mut l0 = vec![0u128; m];
+    dfs(&mut st, 0, &mut l0, 0);
+    if st.out {
+        return None;
+    }
+    best = st.best;
+    Some(best as u64)
+}
+
+// ---------------------------------------------------------------------------
+// building SplitSets
+// ---------------------------------------------------------------------------
+
+#[derive(Clone, Debug, Serialize, Deserialize, PartialEq)]
+pub struct Sp {
+    /// how the canonical key advances from the previous split:
+    /// 0 = next row range of the same row group, 1 = next row group, 2 = next file
+    pub adv: u8,
+    pub rows: i64,
+    pub bytes: u64,
+}
+
+/// Splits in canonical order with pairwise distinct canonical keys.
+fn build_splits(sp: &[Sp]) -> Vec<Split> {
+    let mut out = Vec::with_capacity(sp.len());
+    let (mut file, mut rg, mut off) = (0usize, 0usize, 0i64);
+    for (i, s) in sp.iter().enumerate() {
+        if i > 0 {
+            match s.adv {
+                0 => {}
+                1 => {
+                    rg += 1;
+                    off = 0;
+                }
+                _ => {
+                    file += 1;
+                    rg = 0;
+                    off = 0;
+                }
+            }
+        }
+        let name = format!("f{:04}.parquet", file);
+        out.push(Split {
+            table: "t".into(),
+            path: PathBuf::from(format!("/data/{}", name)),
+            file: name,
+            row_group: rg,
+            row_offset: off,
+            num_rows: s.rows,
+            bytes: s.bytes,
+        });
+        // keys must be distinct even for zero-row splits
+        off += s.rows.max(1);
+    }
+    out
+}
+
+fn split_set(splits: Vec<Split>) -> SplitSet {
+    SplitSet {
+        table: "t".into(),
+        total_bytes: splits.iter().map(|s| s.bytes).sum(),
+        total_rows: splits.iter().map(|s| s.num_rows).sum(),
+        target_split_bytes: MAX_SPLIT_BYTES,
+        splits,
+    }
+}
+
+fn permutation(sel: &[u16], n: usize) -> Vec<usize> {
+    let mut pool: Vec<usize> = (0..n).collect();
+    let mut out = Vec::with_capacity(n);
+    for i in 0..n {
+        let k = pick_idx(sel.get(i).copied().unwrap_or(0), pool.len());
+        out.push(pool.remove(k));
+    }
+    out
+}
+
+// ---------------------------------------------------------------------------
+// the oracle
+// ---------------------------------------------------------------------------
+
+fn same_assignment(a: &Assignment, b: &Assignment) -> bool {
+    a.nodes == b.nodes
+        && a.per_node == b.per_node
+        && a.node_bytes == b.node_bytes
+        && a.node_rows == b.node_rows
+        && a.node_splits == b.node_splits
+        && a.total_bytes == b.total_bytes
+}
+
+/// Structural part of the property: partition + accounting. Returns max load.
+fn check_structure(set: &SplitSet, nodes: usize, a: &Assignment) -> Result<u64, String> {
+    let n = set.splits.len();
+    if a.nodes != nodes {
+        return Err(format!("Assignment.nodes = {} for a request of {} nodes", a.nodes, nodes));
+    }
+    if a.per_node.len() != nodes || a.node_bytes.len() != nodes || a.node_rows.len() != nodes || a.node_splits.len() != nodes {
+        return Err(format!(
+            "per-node vectors have lengths {}/{}/{}/{} for {} nodes",
+            a.per_node.len(),
+            a.node_bytes.len(),
+            a.node_rows.len(),
+            a.node_splits.len(),
+            nodes
+        ));
+    }
+    let mut owner = vec![usize::MAX; n];
+    for (node, owned) in a.per_node.iter().enumerate() {
+        for &i in owned {
+            if i >= n {
+                return Err(format!("node {} owns index {} but the set has {} splits", node, i, n));
+            }
+            if owner[i] != usize::MAX {
+                return Err(format!("split {} is owned by node {} and by node {}", i, owner[i], node));
+            }
+            owner[i] = node;
+        }
+    }
+    if let Some(i) = owner.iter().position(|o| *o == usize::MAX) {
+        return Err(format!("split {} ({} bytes) is owned by no node", i, set.splits[i].bytes));
+    }
+    for node in 0..nodes {
+        let b: u64 = a.per_node[node].iter().map(|&i| set.splits[i].bytes).sum();
+        let r: i64 = a.per_node[node].iter().map(|&i| set.splits[i].num_rows).sum();
+        if a.node_bytes[node] != b {
+            return Err(format!("node_bytes[{}] = {} but the node's splits sum to {}", node, a.node_bytes[node], b));
+        }
+        if a.node_rows[node] != r {
+            return Err(format!("node_rows[{}] = {} but the node's splits sum to {}", node, a.node_rows[node], r));
+        }
+        if a.node_splits[node] != a.per_node[node].len() {
+            return Err(format!(
+                "node_splits[{}] = {} but the node owns {} splits",
+                node,
+                a.node_splits[node],
+                a.per_node[node].len()
+            ));
+        }
+    }
+    let sum: u64 = a.node_bytes.iter().sum();
+    if sum != set.total_bytes || a.total_bytes != set.total_bytes {
+        return Err(format!(
+            "sum of node_bytes = {}, Assignment.total_bytes = {}, table total_bytes = {}",
+            sum, a.total_bytes, set.total_bytes
+        ));
+    }
+    let idle: Vec<usize> = (0..nodes).filter(|i| a.per_node[*i].is_empty()).collect();
+    if a.idle_nodes() != idle {
+        return Err(format!("idle_nodes() = {:?} but the nodes owning nothing are {:?}", a.idle_nodes(), idle));
+    }
+    let max = a.node_bytes.iter().copied().max().unwrap_or(0);
+    let want = if set.total_bytes == 0 { 1.0 } else { max as f64 / (set.total_bytes as f64 / nodes as f64) };
+    let got = a.imbalance();
+    if !(got.is_finite() && (got - want).abs() <= 1e-9 * want.abs().max(1.0)) {
+        return Err(format!("imbalance() = {} but max/mean of the node loads is {}", got, want));
+    }
+    Ok(max)
+}
+
+/// 3*N*max <= (4N-1)*OPT
+fn within_lpt_bound(max: u64, opt: u64, nodes: usize) -> bool {
+    let n = nodes as u128;
+    3 * n * max as u128 <= (4 * n - 1) * opt as u128
+}
+
+// ---------------------------------------------------------------------------
+// check 1: exhaustive small instances
+// ---------------------------------------------------------------------------
+
+#[derive(Clone, Debug, Serialize, Deserialize)]
+pub struct SmallCase {
+    pub nodes: usize,
+    pub sizes: Vec<u64>,
+}
+
+fn multisets(alpha: u64, max_len: usize) -> Vec<Vec<u64>> {
+    // all non-decreasing sequences of length <= max_len over 0..=alpha
+    let mut out = vec![];
+    fn rec(cur: &mut Vec<u64>, lo: u64, alpha: u64, max_len: usize, out: &mut Vec<Vec<u64>>) {
+        out.push(cur.clone());
+        if cur.len() == max_len {
+            return;
+        }
+        for v in lo..=alpha {
+            cur.push(v);
+            rec(cur, v, alpha, max_len, out);
+            cur.pop();
+        }
+    }
+    rec(&mut vec![], 0, alpha, max_len, &mut out);
+    out
+}
+
+fn sequences(alpha: u64, max_len: usize) -> Vec<Vec<u64>> {
+    let mut out = vec![vec![]];
+    let mut layer: Vec<Vec<u64>> = vec![vec![]];
+    for _ in 0..max_len {
+        let mut next = vec![];
+        for s in &layer {
+            for v in 0..=alpha {
+                let mut t = s.clone();
+                t.push(v);
+                next.push(t);
+            }
+        }
+        out.extend(next.iter().cloned());
+        layer = next;
+    }
+    out
+}
+
+pub struct SmallExhaustive;
+impl Check for SmallExhaustive {
+    type Case = SmallCase;
+    fn name(&self) -> &'static str {
+        "lpt_small_exhaustive"
+    }
+    fn rule(&self) -> &'static str {
+        ">=2 nodes, >=3 splits, not all sizes equal (space: all multisets of <=9 sizes over 0..7 and all sequences of <=6 sizes over 0..4, nodes 1..4)"
+    }
+    fn cases(&self, _t: Tier) -> u32 {
+        0
+    }
+    fn strategy(&self, _t: Tier) -> BoxedStrategy<SmallCase> {
+        Just(SmallCase { nodes: 1, sizes: vec![] }).boxed()
+    }
+    fn exhaustive(&self, _t: Tier) -> Option<Box<dyn Iterator<Item = SmallCase> + '_>> {
+        let mut all = multisets(7, 9);
+        // ordered sequences that are not already non-decreasing
+        all.extend(sequences(4, 6).into_iter().filter(|s| s.windows(2).any(|w| w[0] > w[1])));
+        Some(Box::new(
+            all.into_iter()
+                .flat_map(|sizes| (1usize..=4).map(move |nodes| SmallCase { nodes, sizes: sizes.clone() })),
+        ))
+    }
+    fn test(&self, c: &SmallCase, obs: &mut Obs) -> Verdict {
+        let sp: Vec<Sp> = c.sizes.iter().map(|b| Sp { adv: 1, rows: 10, bytes: *b }).collect();
+        let set = split_set(build_splits(&sp));
+        let a = assign_lpt(&set, c.nodes);
+        let distinct_sizes = c.sizes.iter().any(|s| *s != c.sizes[0]);
+        obs.nontrivial(c.nodes >= 2 && c.sizes.len() >= 3 && distinct_sizes);
+        let max = match check_structure(&set, c.nodes, &a) {
+            Ok(m) => m,
+            Err(e) => return Verdict::Fail(format!("sizes={:?} nodes={}: {}", c.sizes, c.nodes, e)),
+        };
+        let b = assign_lpt(&set, c.nodes);
+        if !same_assignment(&a, &b) {
+            return Verdict::Fail(format!("sizes={:?} nodes={}: two calls differ", c.sizes, c.nodes));
+        }
+        let opt = opt_makespan(&c.sizes, c.nodes, u64::MAX).unwrap();
+        if max < opt {
+            return Verdict::Fail(format!(
+                "harness error: max load {} below the computed optimum {} (sizes={:?} nodes={})",
+                max, opt, c.sizes, c.nodes
+            ));
+        }
+        if max == opt {
+            obs.label("optimal");
+        } else if 3 * c.nodes as u128 * max as u128 == (4 * c.nodes as u128 - 1) * opt as u128 {
+            obs.label("bound_tight");
+        } else {
+            obs.label("suboptimal_within_bound");
+        }
+        if !within_lpt_bound(max, opt, c.nodes) {
+            return Verdict::Fail(format!(
+                "sizes={:?} nodes={}: max node load {} > (4/3 - 1/(3*{}))*OPT with OPT={} (node_bytes={:?})",
+                c.sizes, c.nodes, max, c.nodes, opt, a.node_bytes
+            ));
+        }
+        Verdict::Pass
+    }
+}
+
+// ---------------------------------------------------------------------------
+// check 2: generated instances
+// ---------------------------------------------------------------------------
+
+#[derive(Clone, Debug, Serialize, Deserialize)]
+pub struct LptCase {
+    pub nodes: usize,
+    pub splits: Vec<Sp>,
+    /// selectors of the insertion order used for the permuted twin
+    pub perm: Vec<u16>,
+    /// Some(T) when the instance was built from `nodes` bins each summing to T
+    pub planted_opt: Option<u64>,
+    pub family: String,
+}
+
+fn sp_from_sizes(sizes: Vec<u64>) -> impl Strategy<Value = Vec<Sp>> {
+    let n = sizes.len();
+    (
+        proptest::collection::vec(prop_oneof![3 => Just(0u8), 2 => Just(1u8), 1 => Just(2u8)], n),
+        proptest::collection::vec(prop_oneof![Just(0i64), Just(1), 1i64..1000, 1i64..10_000_000], n),
+    )
+        .prop_map(move |(adv, rows)| {
+            sizes
+                .iter()
+                .enumerate()
+                .map(|(i, b)| Sp { adv: adv[i], rows: rows[i], bytes: *b })
+                .collect()
+        })
+}
+
+fn sizes_family(max_len: usize) -> BoxedStrategy<(String, Vec<u64>)> {
+    let len = 0..=max_len;
+    prop_oneof![
+        // tiny alphabet: many ties and zeros
+        3 => proptest::collection::vec(0u64..8, len.clone()).prop_map(|v| ("tiny_alphabet".to_string(), v)),
+        // near-equal sizes (row groups of one file)
+        2 => (1u64..(1 << 30), proptest::collection::vec(0u64..4, len.clone()))
+            .prop_map(|(base, d)| ("near_equal".to_string(), d.into_iter().map(|x| base + x).collect())),
+        // powers of two: heavy tail
+        2 => proptest::collection::vec((0u32..=40).prop_map(|k| 1u64 << k), len.clone())
+            .prop_map(|v| ("pow2".to_string(), v)),
+        // one boulder and pebbles
+        1 => (1u64..=(1 << 40), proptest::collection::vec(0u64..1000, len.clone()))
+            .prop_map(|(b, mut v)| { v.push(b); ("boulder".to_string(), v) }),
+        // the full stated range
+        2 => proptest::collection::vec(prop_oneof![0u64..=(1 << 40), 0u64..100_000, Just(0u64), Just(1u64 << 40)], len.clone())
+            .prop_map(|v| ("uniform_2^40".to_string(), v)),
+        // two classes around a third / a half of a common unit (hard for greedy)
+        2 => (1u64..(1 << 28), proptest::collection::vec((2u64..=7, 0u64..3), len))
+            .prop_map(|(u, v)| ("unit_multiples".to_string(), v.into_iter().map(|(k, d)| k * u + d).collect())),
+    ]
+    .boxed()
+}
+
+/// Graham's tight family scaled by `c`: {2N-1,2N-1,...,N+1,N+1,N,N,N}.
+fn graham(n: usize, c: u64) -> Vec<u64> {
+    let mut v = vec![];
+    for k in (n + 1..=2 * n - 1).rev() {
+        v.push(k as u64 * c);
+        v.push(k as u64 * c);
+    }
+    v.extend([n as u64 * c; 3]);
+    v
+}
+
+fn general_case(max_len: usize) -> BoxedStrategy<LptCase> {
+    (sizes_family(max_len), prop_oneof![4 => 1usize..=6, 2 => 1usize..=16, 1 => 1usize..=64])
+        .prop_flat_map(|((family, sizes), nodes)| {
+            let n = sizes.len();
+            (sp_from_sizes(sizes), proptest::collection::vec(any::<u16>(), n)).prop_map(move |(splits, perm)| LptCase {
+                nodes,
+                splits,
+                perm,
+                planted_opt: None,
+                family: family.clone(),
+            })
+        })
+        .boxed()
+}
+
+fn graham_case() -> BoxedStrategy<LptCase> {
+    (2usize..=6, prop_oneof![Just(1u64), 1u64..1000, 1u64..(1 << 30)], 0usize..3)
+        .prop_flat_map(|(n, c, extra_zero)| {
+            let mut sizes = graham(n, c);
+            sizes.extend(std::iter::repeat(0).take(extra_zero));
+            let len = sizes.len();
+            (sp_from_sizes(sizes), proptest::collection::vec(any::<u16>(), len), proptest::collection::vec(any::<u16>(), len))
+                .prop_map(move |(splits, order, perm)| {
+                    // canonical order must not be the size order
+                    let p = permutation(&order, splits.len());
+                    let bytes: Vec<u64> = p.iter().map(|&i| splits[i].bytes).collect();
+                    let splits = splits
+                        .iter()
+                        .zip(bytes)
+                        .map(|(s, b)| Sp { adv: s.adv, rows: s.rows, bytes: b })
+                        .collect();
+                    LptCase { nodes: n, splits, perm, planted_opt: None, family: "graham_tight".into() }
+                })
+        })
+        .boxed()
+}
+
+/// `nodes` bins that each sum to exactly T, cut into random pieces: OPT = T.
+fn planted_case(max_nodes: usize, max_per_bin: usize) -> BoxedStrategy<LptCase> {
+    (2usize..=max_nodes, prop_oneof![1u64..64, 1u64..100_000, 1u64..=(1 << 40)])
+        .prop_flat_map(move |(nodes, t)| {
+            let bin = proptest::collection::vec(0u64..=t, 0..max_per_bin);
+            (proptest::collection::vec(bin, nodes), Just(nodes), Just(t))
+        })
+        .prop_flat_map(|(bins, nodes, t)| {
+            let mut sizes = vec![];
+            for cuts in &bins {
+                let mut c = cuts.clone();
+                c.sort_unstable();
+                let mut lo = 0;
+                for x in c {
+                    sizes.push(x - lo);
+                    lo = x;
+                }
+                sizes.push(t - lo);
+            }
+            let len = sizes.len();
+            (sp_from_sizes(sizes), proptest::collection::vec(any::<u16>(), len), proptest::collection::vec(any::<u16>(), len))
+                .prop_map(move |(splits, order, perm)| {
+                    let p = permutation(&order, splits.len());
+                    let bytes: Vec<u64> = p.iter().map(|&i| splits[i].bytes).collect();
+                    let splits = splits
+                        .iter()
+                        .zip(bytes)
+                        .map(|(s, b)| Sp { adv: s.adv, rows: s.rows, bytes: b })
+                        .collect();
+                    LptCase { nodes, splits, perm, planted_opt: Some(t), family: "planted".into() }
+                })
+        })
+        .boxed()
+}
+
+const BB_MAX_SPLITS: usize = 14;
+const BB_BUDGET: u64 = 3_000_000;
+
+pub struct Generated;
+impl Check for Generated {
+    type Case = LptCase;
+    fn name(&self) -> &'static str {
+        "lpt_generated"
+    }
+    fn rule(&self) -> &'static str {
+        ">=2 nodes, >=3 splits, not all sizes equal, and the optimum is known exactly (branch-and-bound for <=14 splits, or planted equal bins)"
+    }
+    fn cases(&self, tier: Tier) -> u32 {
+        tier.pick(6000, 3_000_000)
+    }
+    fn strategy(&self, _tier: Tier) -> BoxedStrategy<LptCase> {
+        prop_oneof![
+            5 => general_case(BB_MAX_SPLITS),
+            2 => general_case(200),
+            1 => graham_case(),
+            2 => planted_case(6, 5),
+            1 => planted_case(64, 4),
+        ]
+        .boxed()
+    }
+    fn test(&self, c: &LptCase, obs: &mut Obs) -> Verdict {
+        let nodes = c.nodes;
+        if nodes == 0 {
+            return Verdict::Discard("nodes=0 is outside 1..64".into());
+        }
+        let n = c.splits.len();
+        let canon = build_splits(&c.splits);
+        let set = split_set(canon.clone());
+        let a = assign_lpt(&set, nodes);
+        let sizes: Vec<u64> = c.splits.iter().map(|s| s.bytes).collect();
+        obs.label(format!("family:{}", c.family));
+        obs.label(match n {
+            0 => "len:0",
+            1..=2 => "len:1-2",
+            3..=14 => "len:3-14",
+            15..=63 => "len:15-63",
+            _ => "len:64+",
+        });
+        if nodes > n {
+            obs.label("more_nodes_than_splits");
+        }
+        if sizes.iter().any(|s| *s == 0) {
+            obs.label("has_zero_byte_split");
+        }
+        {
+            let mut s = sizes.clone();
+            s.sort_unstable();
+            if s.windows(2).any(|w| w[0] == w[1]) {
+                obs.label("has_size_ties");
+            }
+        }
+
+        // (1)+(2)
+        let max = match check_structure(&set, nodes, &a) {
+            Ok(m) => m,
+            Err(e) => return Verdict::Fail(format!("nodes={} sizes={:?}: {}", nodes, sizes, e)),
+        };
+        // (3a) identical input, second call
+        let b = assign_lpt(&set.clone(), nodes);
+        if !same_assignment(&a, &b) {
+            return Verdict::Fail(format!("nodes={} sizes={:?}: two calls on identical input differ", nodes, sizes));
+        }
+        // (3b) same splits inserted in another order: every split keeps its owner
+        let p = permutation(&c.perm, n);
+        let twin = split_set(p.iter().map(|&i| canon[i].clone()).collect());
+        let t = assign_lpt(&twin, nodes);
+        if let Err(e) = check_structure(&twin, nodes, &t) {
+            return Verdict::Fail(format!("(permuted insertion order) nodes={} sizes={:?}: {}", nodes, sizes, e));
+        }
+        let mut owner_a = vec![0usize; n];
+        for (node, owned) in a.per_node.iter().enumerate() {
+            for &i in owned {
+                owner_a[i] = node;
+            }
+        }
+        for (node, owned) in t.per_node.iter().enumerate() {
+            for &j in owned {
+                let orig = p[j];
+                if owner_a[orig] != node {
+                    return Verdict::Fail(format!(
+                        "assignment depends on insertion order: split #{} ({}[{}]@{}, {} bytes) goes to node {} in canonical order but to node {} when the same splits are inserted in order {:?} (nodes={}, sizes={:?})",
+                        orig, canon[orig].file, canon[orig].row_group, canon[orig].row_offset, canon[orig].bytes, owner_a[orig], node, p, nodes, sizes
+                    ));
+                }
+            }
+        }
+        if t.node_bytes != a.node_bytes || t.node_rows != a.node_rows {
+            return Verdict::Fail(format!("node totals depend on insertion order (nodes={}, sizes={:?})", nodes, sizes));
+        }
+
+        // (4) the bound, where the optimum is known exactly
+        let opt = if let Some(t) = c.planted_opt {
+            // validate the plant: total must be nodes*T (otherwise the case file was edited)
+            if sizes.iter().map(|x| *x as u128).sum::<u128>() != t as u128 * nodes as u128 {
+                return Verdict::Discard("planted_opt inconsistent with sizes".into());
+            }
+            obs.label("opt:planted");
+            Some(t)
+        } else if n <= BB_MAX_SPLITS {
+            match opt_makespan(&sizes, nodes, BB_BUDGET) {
+                Some(o) => {
+                    obs.label("opt:branch_and_bound");
+                    Some(o)
+                }
+                None => {
+                    obs.label("opt:budget_exhausted");
+                    None
+                }
+            }
+        } else if nodes >= n {
+            obs.label("opt:trivial");
+            Some(sizes.iter().copied().max().unwrap_or(0))
+        } else {
+            obs.label("opt:unknown(structure only)");
+            None
+        };
+        let distinct_sizes = sizes.iter().any(|s| *s != sizes[0]);
+        obs.nontrivial(nodes >= 2 && n >= 3 && distinct_sizes && opt.is_some());
+        if let Some(opt) = opt {
+            if max < opt {
+                return Verdict::Fail(format!(
+                    "harness error: max load {} below the optimum {} (nodes={} sizes={:?})",
+                    max, opt, nodes, sizes
+                ));
+            }
+            if max == opt {
+                obs.label("optimal");
+            } else if 3 * nodes as u128 * max as u128 == (4 * nodes as u128 - 1) * opt as u128 {
+                obs.label("bound_tight");
+            } else {
+                obs.label("suboptimal_within_bound");
+            }
+            if !within_lpt_bound(max, opt, nodes) {
+                return Verdict::Fail(format!(
+                    "nodes={} sizes={:?}: max node load {} > (4/3 - 1/(3*{}))*OPT with OPT={} (node_bytes={:?})",
+                    nodes, sizes, max, nodes, opt, a.node_bytes
+                ));
+            }
+        }
+        Verdict::Pass
+    }
+}
 
 pub fn property() -> Property {
-    Property { id: "C12", level: "exploration", assumptions: &[], checks: vec![] }
+    Property {
+        id: "C12",
+        level: "exploration",
+        assumptions: &[
+            "split sets have pairwise distinct canonical keys (table,file,row_group,row_offset), as every enumeration produces; byte sizes <= 2^40 and <= 200 splits so u64 sums cannot overflow",
+            "the optimal makespan is computed by an independent exact branch-and-bound (<=14 splits) or known by construction (planted equal bins); larger unplanted instances are checked for partition/accounting/determinism only",
+            "insertion-order independence is checked as owner-of-each-split equality (indices necessarily differ)",
+        ],
+        checks: vec![Box::new(SmallExhaustive), Box::new(Generated)],
+    }
 }
